@@ -213,6 +213,21 @@ def c20():
         mk = s.dispatcher.schedule.makespan()
         if mk > 0 and i % 3 == 0:
             plot_event(s, s.dispatcher.schedule, req_xlim=mk + rng.randint(1, 7))
+        if i % 4 == 1:
+            # "any schedule": one assembled from per-machine lists, and one whose lists were replaced through the
+            # public `schedule` setter after it had held something else (a longer, complete schedule)
+            from job_shop_lib import Schedule
+            lists = [list(ms) for ms in s.dispatcher.schedule.schedule]
+            out, built = dsession._outcome(lambda: Schedule(s.instance, [list(ms) for ms in lists]))
+            if out == "ok":
+                plot_event(s, built)
+            d2 = model.make_dispatcher(s.instance, [])
+            for job in s.instance.jobs:
+                for op in job:
+                    d2.dispatch(op, op.machines[-1])
+            other = d2.schedule
+            other.schedule = lists
+            plot_event(s, other)
         traces.append(s.trace())
     chk.monitor(traces, source="gantt-charts-read-back")
     n0 = len(traces)
